@@ -176,6 +176,25 @@ func stress(rep int) {
 	sessions := []*torrent.Session{a, b}
 	clients := []*rainrpc.Client{clA, clB}
 	var extraN atomic.Int64
+	// handles of the torrents workers add and remove: other workers call getters on them while they are being removed
+	var exMu sync.Mutex
+	var extras []*torrent.Torrent
+	addExtra := func(t *torrent.Torrent) {
+		exMu.Lock()
+		extras = append(extras, t)
+		if len(extras) > 24 {
+			extras = extras[len(extras)-24:]
+		}
+		exMu.Unlock()
+	}
+	pickExtra := func(r *rand.Rand) *torrent.Torrent {
+		exMu.Lock()
+		defer exMu.Unlock()
+		if len(extras) == 0 {
+			return nil
+		}
+		return extras[r.Intn(len(extras))]
+	}
 	var wg sync.WaitGroup
 	nworkers := 8 + r.Intn(9)
 	for w := 0; w < nworkers; w++ {
@@ -200,7 +219,14 @@ func stress(rep int) {
 				if t == nil {
 					continue
 				}
-				switch op := wr.Intn(44); op {
+				op := wr.Intn(44)
+				if op <= 10 && wr.Intn(3) == 0 {
+					// a getter on a torrent that another worker may be removing right now
+					if x := pickExtra(wr); x != nil {
+						t = x
+					}
+				}
+				switch op {
 				case 0, 1, 2:
 					ct.do("Torrent.Stats", func() { t.Stats() })
 				case 3:
@@ -242,16 +268,18 @@ func stress(rep int) {
 						n := extraN.Add(1)
 						l := &gen.Layout{Name: fmt.Sprintf("x%d-%d", rep, n), PieceLen: 16384, Seed: seed + 100 + n, Single: true, Files: []gen.FileSpec{{Length: 20000}}}
 						id := fmt.Sprintf("x%d", n)
-						if _, err := s.AddTorrent(bytes.NewReader(gen.TorrentBytes(l.InfoBytes(l.Truth()), [][]string{{trURL}}, nil)), &torrent.AddTorrentOptions{ID: id, Stopped: wr.Intn(2) == 0}); err == nil {
+						if nt, err := s.AddTorrent(bytes.NewReader(gen.TorrentBytes(l.InfoBytes(l.Truth()), [][]string{{trURL}}, nil)), &torrent.AddTorrentOptions{ID: id, Stopped: wr.Intn(2) == 0}); err == nil {
 							mine = append(mine, fmt.Sprintf("%d:%s", si, id))
+							addExtra(nt)
 						}
 					})
 				case 22:
 					ct.do("Session.AddURI(magnet)", func() {
 						n := extraN.Add(1)
 						id := fmt.Sprintf("m%d", n)
-						if _, err := s.AddURI(fmt.Sprintf("magnet:?xt=urn:btih:%x&tr=%s", tt.ih, trURL), &torrent.AddTorrentOptions{ID: id, Stopped: wr.Intn(2) == 0}); err == nil {
+						if nt, err := s.AddURI(fmt.Sprintf("magnet:?xt=urn:btih:%x&tr=%s", tt.ih, trURL), &torrent.AddTorrentOptions{ID: id, Stopped: wr.Intn(2) == 0}); err == nil {
 							mine = append(mine, fmt.Sprintf("%d:%s", si, id))
+							addExtra(nt)
 						}
 					})
 				case 23, 24:
@@ -261,7 +289,37 @@ func stress(rep int) {
 						var xs int
 						var id string
 						fmt.Sscanf(x, "%d:%s", &xs, &id)
+						// getters keep running on the handle while the torrent is being removed
+						h := sessions[xs].GetTorrent(id)
+						stopG := make(chan struct{})
+						var gw sync.WaitGroup
+						if h != nil && wr.Intn(2) == 0 {
+							for g := 0; g < 2; g++ {
+								gw.Add(1)
+								go func(g int) {
+									defer gw.Done()
+									for {
+										select {
+										case <-stopG:
+											return
+										default:
+										}
+										ct.do("getters during RemoveTorrent", func() {
+											if g == 0 {
+												h.FileStats()
+												h.Magnet()
+											} else {
+												h.Files()
+												h.Torrent()
+											}
+										})
+									}
+								}(g)
+							}
+						}
 						ct.do("Session.RemoveTorrent", func() { sessions[xs].RemoveTorrent(id, wr.Intn(2) == 0) })
+						close(stopG)
+						gw.Wait()
 					}
 				case 25:
 					if wr.Intn(6) == 0 {
